@@ -621,7 +621,7 @@ Qed.
 (* the parser against the grammar *)
 
 Ltac norm_app := repeat (progress (rewrite <- ?app_assoc; cbn [app])).
-Ltac len := repeat rewrite app_length in *; cbn [length] in *.
+Ltac len := repeat (progress (rewrite ?app_length in *; cbn [length] in *)).
 
 Section Parser.
   Variable F : Type.
@@ -950,5 +950,189 @@ Section Parser.
     apply (proj1 (sound_all fuel)) in E; [|lia]. destruct E as (w & t & -> & Hw & Hv & Hd).
     split; [|lia]. exists w, t, rest. split; [reflexivity|]. split; [exact Hw|]. split; [exact Hv|].
     apply flush_ws_nil_WS. exact Er.
+  Qed.
+  (* ---- completeness ---- *)
+  Definition complete_v (t : str) (v : value F) : Prop :=
+    forall fuel d w rest, WS w -> delim rest -> d + depth v <= maxd ->
+      (2 * length (w ++ t ++ rest) + 2 <= fuel)%nat -> pv fuel d (w ++ t ++ rest) = Ok (v, rest).
+
+  Definition complete_a (b : str) (vs : list (value F)) : Prop :=
+    forall fuel d first rest, d + depth_list vs <= maxd ->
+      (2 * length (b ++ 0x5d%N :: rest) + 3 <= fuel)%nat -> al fuel d first (b ++ 0x5d :: rest) = Ok (vs, rest).
+
+  Definition complete_o (b : str) (ms : list (str * value F)) : Prop :=
+    forall fuel d tc empty rest, member_sep_ok false empty tc = true -> d + depth_members ms <= maxd ->
+      (2 * length (b ++ 0x7d%N :: rest) + 3 <= fuel)%nat -> ol fuel d tc empty (b ++ 0x7d :: rest) = Ok (ms, rest).
+
+  Lemma pv_literal (f : nat) (d : N) (w : str) (c : N) (r rest : str) (v : value F) :
+    WS w -> is_ws c = false -> c <> ch_dq -> c <> ch_lbrack -> c <> ch_lbrace -> d <= maxd ->
+    parse_literal F fparse false c (r ++ rest) = Ok (v, rest) ->
+    pv (S f) d (w ++ (c :: r) ++ rest) = Ok (v, rest).
+  Proof.
+    intros Hw Hc N1 N2 N3 Hd H. rewrite pv_eq.
+    assert ((maxd <? d) = false) as -> by nbool.
+    rewrite flush_ws_app; [|exact Hw|exact Hc]. cbn [app].
+    rewrite (eqb_false_of_neq _ _ N1), (eqb_false_of_neq _ _ N2), (eqb_false_of_neq _ _ N3). exact H.
+  Qed.
+
+  Lemma complete_name (name : str) (v : value F) (c : N) (r : str) :
+    name = c :: r -> is_ws c = false -> c <> ch_dq -> c <> ch_lbrack -> c <> ch_lbrace ->
+    Forall (fun c => is_literal c = true) r -> depth v = 0 ->
+    (forall rest : str, (if str_eqb name s_null then Ok (VNull, rest)
+     else if str_eqb name s_true then Ok (VBool true, rest)
+     else if str_eqb name s_false then Ok (VBool false, rest)
+     else if number_ok false name then
+            match fparse name with Some x => Ok (VNum x, rest) | None => Err E_TOK end
+          else Err E_TOK) = Ok (v, rest)) ->
+    complete_v name v.
+  Proof.
+    intros Hn Hc N1 N2 N3 Hl Hdv H fuel d w rest Hw Hd Hdep Hfuel.
+    destruct fuel as [|f]; [lia|]. subst name.
+    apply pv_literal; try assumption; [lia|].
+    apply (parse_literal_name (c :: r)); [reflexivity|exact Hl|exact Hd|apply H].
+  Qed.
+
+  Lemma delim_rbrack (rest : str) : delim (0x5d :: rest).
+  Proof. reflexivity. Qed.
+  Lemma delim_rbrace (rest : str) : delim (0x7d :: rest).
+  Proof. reflexivity. Qed.
+  Lemma delim_comma (rest : str) : delim (0x2c :: rest).
+  Proof. reflexivity. Qed.
+
+  Lemma complete_all :
+    (forall t v, JV t v -> complete_v t v) /\
+    (forall b vs, JE b vs -> complete_a b vs) /\
+    (forall b ms, JM b ms -> complete_o b ms).
+  Proof.
+    apply JValue_mutind.
+    - (* null *)
+      apply (complete_name s_null VNull 0x6e [0x75; 0x6c; 0x6c]); try reflexivity; try discriminate.
+      repeat constructor.
+    - apply (complete_name s_true (VBool true) 0x74 [0x72; 0x75; 0x65]); try reflexivity; try discriminate.
+      repeat constructor.
+    - apply (complete_name s_false (VBool false) 0x66 [0x61; 0x6c; 0x73; 0x65]); try reflexivity; try discriminate.
+      repeat constructor.
+    - (* number *)
+      intros s x Hn Hf fuel d w rest Hw Hd Hdep Hfuel.
+      destruct fuel as [|f]; [lia|].
+      destruct (JNumber_head s Hn) as (c & r & -> & Hc).
+      assert (Hc' : 0x2d <= c <= 0x39) by (unfold digit in Hc; lia).
+      apply pv_literal; try assumption.
+      + unfold is_ws. nbool.
+      + unfold ch_dq. lia.
+      + unfold ch_lbrack. lia.
+      + unfold ch_lbrace. lia.
+      + cbn [depth] in Hdep. lia.
+      + apply (parse_literal_number (c :: r)); auto.
+    - (* string *)
+      intros b o Hb fuel d w rest Hw Hd Hdep Hfuel.
+      destruct fuel as [|f]; [lia|]. rewrite pv_eq.
+      assert ((maxd <? d) = false) as -> by (cbn [depth] in Hdep; nbool).
+      rewrite flush_ws_app; [|exact Hw|reflexivity]. cbn [app].
+      change (0x22 =? ch_dq) with true. cbn iota. rewrite <- app_assoc. cbn [app].
+      rewrite (string_loop_complete b o Hb). reflexivity.
+    - (* empty array *)
+      intros w0 Hw0 fuel d w rest Hw Hd Hdep Hfuel. rewrite depth_arr in Hdep. cbn in Hdep.
+      destruct fuel as [|f]; [lia|]. rewrite pv_eq.
+      assert ((maxd <? d) = false) as -> by nbool.
+      rewrite flush_ws_app; [|exact Hw|reflexivity]. cbn [app].
+      change (0x5b =? ch_dq) with false. change (0x5b =? ch_lbrack) with true. cbn iota.
+      assert ((d =? maxd) = false) as -> by nbool.
+      len. destruct f as [|f]; [lia|]. rewrite <- app_assoc. cbn [app]. rewrite al_eq.
+      rewrite flush_ws_app; [|exact Hw0|reflexivity].
+      change (0x5d =? ch_rbrack) with true. cbn iota. unfold dec_depth.
+      assert ((d + 1 =? 0) = false) as -> by nbool. reflexivity.
+    - (* array *)
+      intros b vs Hb IH fuel d w rest Hw Hd Hdep Hfuel. rewrite depth_arr in Hdep.
+      destruct fuel as [|f]; [lia|]. rewrite pv_eq.
+      assert ((maxd <? d) = false) as -> by nbool.
+      rewrite flush_ws_app; [|exact Hw|reflexivity]. cbn [app].
+      change (0x5b =? ch_dq) with false. change (0x5b =? ch_lbrack) with true. cbn iota.
+      assert ((d =? maxd) = false) as -> by nbool.
+      rewrite <- app_assoc. cbn [app]. rewrite IH; [|lia|len; lia].
+      unfold dec_depth. assert ((d + 1 =? 0) = false) as -> by nbool. reflexivity.
+    - (* empty object *)
+      intros w0 Hw0 fuel d w rest Hw Hd Hdep Hfuel. rewrite depth_obj in Hdep. cbn in Hdep.
+      destruct fuel as [|f]; [lia|]. rewrite pv_eq.
+      assert ((maxd <? d) = false) as -> by nbool.
+      rewrite flush_ws_app; [|exact Hw|reflexivity]. cbn [app].
+      change (0x7b =? ch_dq) with false. change (0x7b =? ch_lbrack) with false. change (0x7b =? ch_lbrace) with true. cbn iota.
+      assert ((d =? maxd) = false) as -> by nbool.
+      len. destruct f as [|f]; [lia|]. rewrite <- app_assoc. cbn [app]. rewrite ol_eq.
+      rewrite flush_ws_app; [|exact Hw0|reflexivity].
+      change (0x7d =? ch_rbrace) with true. cbn iota. unfold dec_depth.
+      assert ((d + 1 =? 0) = false) as -> by nbool. reflexivity.
+    - (* object *)
+      intros b ms Hb IH fuel d w rest Hw Hd Hdep Hfuel. rewrite depth_obj in Hdep.
+      destruct fuel as [|f]; [lia|]. rewrite pv_eq.
+      assert ((maxd <? d) = false) as -> by nbool.
+      rewrite flush_ws_app; [|exact Hw|reflexivity]. cbn [app].
+      change (0x7b =? ch_dq) with false. change (0x7b =? ch_lbrack) with false. change (0x7b =? ch_lbrace) with true. cbn iota.
+      assert ((d =? maxd) = false) as -> by nbool.
+      rewrite <- app_assoc. cbn [app]. rewrite IH; [|reflexivity|lia|len; lia].
+      unfold dec_depth. assert ((d + 1 =? 0) = false) as -> by nbool. reflexivity.
+    - (* last element *)
+      intros w1 t v w2 Hw1 Hv IHv Hw2 fuel d first rest Hdep Hfuel. rewrite depth_list_cons in Hdep.
+      destruct fuel as [|f]; [lia|]. rewrite al_eq. norm_app.
+      destruct (JValue_head t v Hv) as (c & r0 & -> & Hc & Hnrb).
+      rewrite flush_ws_app; [|exact Hw1|exact Hc]. cbn [app].
+      rewrite (eqb_false_of_neq _ _ Hnrb).
+      change (c :: r0 ++ w2 ++ 0x5d :: rest) with ([] ++ (c :: r0) ++ w2 ++ 0x5d :: rest).
+      rewrite IHv; [|constructor|apply delim_ws_app; [exact Hw2|apply delim_rbrack]|lia|len; lia].
+      rewrite flush_ws_app; [|exact Hw2|reflexivity].
+      change (0x5d =? ch_comma) with false. change (0x5d =? ch_rbrack) with true. reflexivity.
+    - (* element, comma, more *)
+      intros w1 t v w2 b vs Hw1 Hv IHv Hw2 Hb IHb fuel d first rest Hdep Hfuel. rewrite depth_list_cons in Hdep.
+      destruct fuel as [|f]; [lia|]. rewrite al_eq. norm_app.
+      destruct (JValue_head t v Hv) as (c & r0 & -> & Hc & Hnrb).
+      rewrite flush_ws_app; [|exact Hw1|exact Hc]. cbn [app].
+      rewrite (eqb_false_of_neq _ _ Hnrb).
+      change (c :: r0 ++ w2 ++ 0x2c :: b ++ 0x5d :: rest) with ([] ++ (c :: r0) ++ w2 ++ 0x2c :: b ++ 0x5d :: rest).
+      rewrite IHv; [|constructor|apply delim_ws_app; [exact Hw2|apply delim_comma]|lia|len; lia].
+      rewrite flush_ws_app; [|exact Hw2|reflexivity].
+      change (0x2c =? ch_comma) with true. cbn iota.
+      rewrite IHb; [reflexivity|lia|len; lia].
+    - (* last member *)
+      intros w1 kb k w2 w3 t v w4 Hw1 Hk Hw2 Hw3 Hv IHv Hw4 fuel d tc empty rest Hsep Hdep Hfuel.
+      rewrite depth_members_cons in Hdep.
+      destruct fuel as [|f]; [lia|]. rewrite ol_eq. norm_app.
+      rewrite flush_ws_app; [|exact Hw1|reflexivity].
+      change (0x22 =? ch_rbrace) with false. change (0x22 =? ch_comma) with false. rewrite Hsep.
+      change (0x22 =? ch_dq) with true. cbn [negb]. cbn iota.
+      rewrite (string_loop_complete kb k Hk).
+      rewrite flush_ws_app; [|exact Hw2|reflexivity].
+      change (0x3a =? ch_colon) with true. cbn [negb]. cbn iota.
+      rewrite flush_ws_app; [|exact Hw3|apply (JValue_starts_non_ws t v); exact Hv].
+      change (t ++ w4 ++ 0x7d :: rest) with ([] ++ t ++ w4 ++ 0x7d :: rest).
+      rewrite IHv; [|constructor|apply delim_ws_app; [exact Hw4|apply delim_rbrace]|lia|len; lia].
+      len. destruct f as [|f]; [lia|]. rewrite ol_eq.
+      rewrite flush_ws_app; [|exact Hw4|reflexivity].
+      change (0x7d =? ch_rbrace) with true. reflexivity.
+    - (* member, comma, more *)
+      intros w1 kb k w2 w3 t v w4 b ms Hw1 Hk Hw2 Hw3 Hv IHv Hw4 Hb IHb fuel d tc empty rest Hsep Hdep Hfuel.
+      rewrite depth_members_cons in Hdep.
+      destruct fuel as [|f]; [lia|]. rewrite ol_eq. norm_app.
+      rewrite flush_ws_app; [|exact Hw1|reflexivity].
+      change (0x22 =? ch_rbrace) with false. change (0x22 =? ch_comma) with false. rewrite Hsep.
+      change (0x22 =? ch_dq) with true. cbn [negb]. cbn iota.
+      rewrite (string_loop_complete kb k Hk).
+      rewrite flush_ws_app; [|exact Hw2|reflexivity].
+      change (0x3a =? ch_colon) with true. cbn [negb]. cbn iota.
+      rewrite flush_ws_app; [|exact Hw3|apply (JValue_starts_non_ws t v); exact Hv].
+      change (t ++ w4 ++ 0x2c :: b ++ 0x7d :: rest) with ([] ++ t ++ w4 ++ 0x2c :: b ++ 0x7d :: rest).
+      rewrite IHv; [|constructor|apply delim_ws_app; [exact Hw4|apply delim_comma]|lia|len; lia].
+      len. destruct f as [|f]; [lia|]. rewrite ol_eq.
+      rewrite flush_ws_app; [|exact Hw4|reflexivity].
+      change (0x2c =? ch_rbrace) with false. change (0x2c =? ch_comma) with true. cbn iota.
+      rewrite IHb; [reflexivity|reflexivity|lia|len; lia].
+  Qed.
+
+  Theorem parse_with_fuel_complete (fuel : nat) (s : str) (v : value F) :
+    JText fparse s v -> depth v <= maxd -> (fuel_for s <= fuel)%nat ->
+    parse_with_fuel F fparse false maxd fuel s = Ok v.
+  Proof.
+    intros (w1 & t & w2 & -> & Hw1 & Hv & Hw2) Hd Hfuel. unfold parse_with_fuel.
+    rewrite (proj1 complete_all t v Hv fuel 0 w1 w2 Hw1); [|destruct Hw2; [exact I|cbn; apply is_literal_false_of_ws; assumption]|lia|exact Hfuel].
+    rewrite WS_flush_nil by exact Hw2. reflexivity.
   Qed.
 End Parser.
